@@ -1,4 +1,4 @@
 SPECIFICATION Spec
 CONSTANT Geoms <- GeomsThorough
-INVARIANTS BinInOwnList RunLemma BinRange
+INVARIANTS BinInOwnList RunLemma BinRange TileLemma
 CHECK_DEADLOCK FALSE
